@@ -505,5 +505,18 @@ void run_C09(void) {
         if (cfg == DISP_GENERIC && (i & 1)) continue;
         ops_recontent_case("C09 entry points", RNAMES, (int)ARRAY_LEN(RNAMES), RN[i], cfg, G.thorough ? 40 : 6, (unsigned)i, "same_buffers_other_data_calls");
       }
+    // and with every allocation request made inside the call refused (build tag "oom"; a no-op in the other builds)
+    for (int cfg = DISP_NATIVE; cfg >= DISP_GENERIC; cfg--) {
+      ops_oom_case("C09 entry points", RNAMES, (int)ARRAY_LEN(RNAMES), 64, cfg, G.thorough ? 12 : 3, 0, "calls_repeated_under_allocation_failure");
+      ops_oom_case("C09 entry points", RNAMES, (int)ARRAY_LEN(RNAMES), 1024, cfg, G.thorough ? 6 : 2, 1, "calls_repeated_under_allocation_failure");
+    }
+    // and from a thread with a small stack, at the largest dimensions
+    for (int cfg = DISP_NATIVE; cfg >= DISP_GENERIC; cfg--) {
+      ops_small_stack_case("C09 entry points", RNAMES, (int)ARRAY_LEN(RNAMES), 65536, cfg, 256, G.thorough ? 4 : 1, 0, "small_stack_calls");
+      ops_small_stack_case("C09 entry points", RNAMES, (int)ARRAY_LEN(RNAMES), 16384, cfg, 256, G.thorough ? 4 : 2, 1, "small_stack_calls");
+    }
   }
+  // several threads creating, using and destroying their own modules / tables at the same time
+  for (unsigned rep = 0; rep < (G.thorough ? 60u : 8u); rep++)
+    ops_concurrent_lifecycle_case("C09 objects", LKM_MOD_NTT120 | LKM_MOD_FFT64, (rep % 4) == 3 ? DISP_GENERIC : DISP_NATIVE, rep & 1 ? 8 : 4, 120, rep, "concurrent_lifecycle_uses");
 }
